@@ -1,6 +1,6 @@
 """Shared machinery for all checks: harness build, TLC runs (model checking, behaviour generation,
 trace validation), evidence files, known findings.  Python 3 standard library only."""
-import json, os, re, subprocess, sys, time, hashlib, random, shutil
+import json, os, re, subprocess, sys, time, hashlib, random, shutil, glob, signal, tempfile
 from concurrent.futures import ThreadPoolExecutor
 
 ROOT = os.path.dirname(os.path.dirname(os.path.abspath(__file__)))
@@ -63,17 +63,105 @@ def build_harness(security=False):
     return exe
 
 
-def vh(args, security=False, timeout=3600, env=None, check=True):
+class HarnessDeath(Exception):
+    """The harness process was killed by the code under test (abort, stack overflow, out of memory, a panic that
+    escaped, a run that never ends).  deaths: list of dict(run, how, spec, cmd); every one was reproduced alone."""
+    def __init__(self, deaths):
+        Exception.__init__(self, f"{len(deaths)} run(s) kill the harness process")
+        self.deaths = deaths
+
+
+def _how(rc):
+    if rc is None:
+        return "no progress (run does not end)"
+    if rc < 0:
+        try:
+            return "killed by " + signal.Signals(-rc).name
+        except Exception:
+            return f"killed by signal {-rc}"
+    return f"exit code {rc}"
+
+
+def _watched(cmd, env, timeout, out_dir, stall):
+    """runs cmd; returns (returncode or None when killed for lack of progress, stdout, stderr)"""
+    so, se = tempfile.TemporaryFile(mode="w+"), tempfile.TemporaryFile(mode="w+")
+    p = subprocess.Popen(cmd, stdout=so, stderr=se, text=True, env=env)
+    t0 = last = time.time()
+    sig = None
+    rc = None
+    while True:
+        try:
+            rc = p.wait(timeout=1.0)
+            break
+        except subprocess.TimeoutExpired:
+            pass
+        now = time.time()
+        if now - t0 > timeout:
+            p.kill(); p.wait()
+            raise ToolError(f"{' '.join(cmd[1:4])} ... timed out after {timeout}s")
+        if out_dir and stall:
+            cur = sorted(glob.glob(os.path.join(out_dir, "current_*")))
+            s2 = tuple(open(c).read() for c in cur) if cur else None
+            if s2 != sig:
+                sig, last = s2, now
+            elif cur and now - last > stall:
+                p.kill(); p.wait()
+                rc = None
+                break
+    so.seek(0); se.seek(0)
+    return rc, so.read(), se.read()
+
+
+def vh(args, security=False, timeout=3600, env=None, check=True, stall=900):
+    """Runs the harness.  A process that dies (signal, escaped panic) or stops making progress while it works through
+    runs (util::run_parallel leaves current_<j> markers) is data, not a tool error: the runs in flight are re-run one by
+    one, and those that kill the process again are raised as HarnessDeath (bin/check turns them into VIOLATION lines)."""
     exe = build_harness(security)
     e = dict(os.environ)
     if env:
         e.update(env)
-    p = subprocess.run([exe] + [str(a) for a in args], stdout=subprocess.PIPE, stderr=subprocess.PIPE, text=True, timeout=timeout, env=e)
-    if check and p.returncode != 0:
-        log(p.stdout[-3000:])
-        log(p.stderr[-3000:])
-        raise ToolError(f"vh {' '.join(map(str,args))} exited {p.returncode}")
-    return p
+    args = [str(a) for a in args]
+    out_dir = args[args.index("--out") + 1] if "--out" in args else None
+    if out_dir and (os.path.isfile(out_dir) or "--only" in args):
+        out_dir = None
+    if out_dir:
+        for c in glob.glob(os.path.join(out_dir, "current_*")):
+            os.remove(c)
+    rc, so, se = _watched([exe] + args, e, timeout, out_dir, stall)
+    p = subprocess.CompletedProcess(args, rc if rc is not None else -9, so, se)
+    if rc == 0 or not check:
+        return p
+    log(so[-3000:])
+    log(se[-3000:])
+    cur = sorted(glob.glob(os.path.join(out_dir, "current_*"))) if out_dir else []
+    died = rc is None or rc < 0 or rc in (101, 134, 137, 139)
+    if died and cur:
+        cands = []
+        for c in cur:
+            t = open(c).read().strip()
+            if t.isdigit():
+                cands.append(int(t))
+        deaths = []
+        for k in sorted(set(cands)):
+            od = os.path.join(out_dir, f"only_{k}")
+            a2 = list(args)
+            a2[a2.index("--out") + 1] = od
+            if "--jobs" in a2:
+                a2[a2.index("--jobs") + 1] = "1"
+            a2 += ["--only", str(k)]
+            rc2, so2, se2 = _watched([exe] + a2, e, 1800, od, min(stall, 300))
+            if rc2 != 0:
+                spec = None
+                try:
+                    spec = json.load(open(os.path.join(od, "only_spec.json")))
+                except Exception:
+                    pass
+                deaths.append({"run": k, "how": _how(rc2), "spec": spec, "cmd": ["vh"] + a2, "stderr_tail": se2[-1500:]})
+                log(f"[death] run {k} alone: {_how(rc2)}")
+        if deaths:
+            raise HarnessDeath(deaths)
+        raise ToolError(f"vh {' '.join(args)}: {_how(rc)}, not reproduced by any of the runs in flight ({cands})")
+    raise ToolError(f"vh {' '.join(args)} exited {rc}")
 
 
 # ---------------------------------------------------------------------- TLC
